@@ -278,6 +278,12 @@ class DimWalker:
         if isinstance(s, ast.If):
             self.ev(s.test, env, s)
             et, ef = self.refine(s.test, env)
+            if et is None and ef is None:
+                return env
+            if et is None:  # the rule decided the test is false under its current assumption
+                return self.run(s.orelse, ef)
+            if ef is None:
+                return self.run(s.body, et)
             et = self.run(s.body, et)
             ef = self.run(s.orelse, ef)
             if _terminates(s.body) and not _terminates(s.orelse):
@@ -323,23 +329,29 @@ class DimWalker:
             while isinstance(base, ast.Subscript):
                 base = base.value
             if isinstance(base, ast.Name):
-                # element store into a local array: the array takes (keeps) the element's dimension
                 if isinstance(d, Exception):
+                    env.pop(ast.unparse(t), None)
                     return
-                old = env.get(base.id)
-                if old is None or isinstance(old, Poly):
-                    env[base.id] = d
-                elif not isinstance(d, Poly) and old != d:
-                    self.on_error(s, DimError(s, "element of dimension %r stored into `%s` of dimension %r" % (d, base.id, old)))
+                sl = t.slice if isinstance(t, ast.Subscript) else None
+                array_like = isinstance(sl, (ast.Slice, ast.Tuple)) or (isinstance(sl, ast.Constant) and isinstance(sl.value, int)) or (isinstance(sl, ast.UnaryOp))
+                if array_like:
+                    # element store into a local array: the array takes (keeps) the element's dimension
+                    old = env.get(base.id)
+                    if old is None or isinstance(old, Poly):
+                        env[base.id] = d
+                    elif not isinstance(d, Poly) and old != d:
+                        self.on_error(s, DimError(s, "element of dimension %r stored into `%s` of dimension %r" % (d, base.id, old)))
+                else:
+                    # keyed store (dict entry): the entry has its own dimension; the container is heterogeneous
+                    env[ast.unparse(t)] = d
+                    if isinstance(env.get(base.id), Poly) or base.id not in env:
+                        env[base.id] = d
+                    elif env.get(base.id) != d:
+                        env.pop(base.id, None)
                 return
             self.on_store(t, d, s, env)
 
 
 def _load(t):
-    import copy
-
-    t2 = copy.deepcopy(t)
-    for n in ast.walk(t2):
-        if hasattr(n, "ctx"):
-            n.ctx = ast.Load()
-    return t2
+    # detached copy in Load context (the original carries parent links into the whole module, so never deepcopy it)
+    return ast.parse(ast.unparse(t), mode="eval").body
